@@ -63,7 +63,7 @@ def restrictions_of(cred):
         return (None, False)        # the hand-built certificate carries no permit-port-forwarding extension
     if kind == 'pk':
         _, user, keyname = cred[:3]
-        for k, opts in AUTH_KEYS[user]:
+        for k, opts in AUTH_KEYS.get(user, []):
             if k == keyname:
                 return ('forced-a' if 'command=' in opts else None,
                         'no-port-forwarding' not in opts)
@@ -97,7 +97,9 @@ class AuthServer(asyncssh.SSHServer):
         text = ''.join(openssh_line(k, o) for k, o in AUTH_KEYS.get(username, []))
         if username == 'alice':
             text += openssh_line('ca', 'cert-authority,principals="alice",no-pty')
-        self.conn.set_authorized_keys(asyncssh.import_authorized_keys(text) if text else None)
+        if text or not self.env.get('sparse_begin'):
+            self.conn.set_authorized_keys(asyncssh.import_authorized_keys(text) if text else None)
+        # sparse_begin: like the shipped example server, users without a keys file are simply left alone
         if self.env.get('async_begin'):
             return self._later(('begin', username), True)
         return True
@@ -255,7 +257,7 @@ def valid_for(req):
     kind = req[0]
     if kind == 'pw' and req[2] == 'right':
         return req[1]
-    if kind == 'pk' and req[3] == 'good' and any(k == req[2] for k, _ in AUTH_KEYS[req[1]]):
+    if kind == 'pk' and req[3] == 'good' and any(k == req[2] for k, _ in AUTH_KEYS.get(req[1], [])):
         return req[1]
     if kind == 'cert' and req[2] == 'good' and req[1] == 'alice':
         return 'alice'
@@ -326,8 +328,8 @@ def config_for(mode):
 
 # ------------------------------------------------------------------ one execution
 def execute(hist, chooser, async_begin=False, seed=0):
-    cfgmode = async_begin if isinstance(async_begin, str) else None
-    env = {'async_begin': async_begin is True, 'cfgmode': cfgmode}
+    cfgmode = async_begin if isinstance(async_begin, str) and async_begin.startswith('cfg-') else None
+    env = {'async_begin': async_begin is True, 'cfgmode': cfgmode, 'sparse_begin': async_begin == 'sparse'}
     sopts = dict(config=[config_for(cfgmode)]) if cfgmode else None
     w = H.SrvWorld(seed=seed, env=env, auto_executor=False, server_factory=AuthServer, sopts=sopts)
     rp, loop = w.rp, w.loop
@@ -736,6 +738,13 @@ def main(tier, seed):
         [[r1, r2, r3] for r1 in ca[:2] for r2 in ca for r3 in ca[2:9]]
     for mode in ('cfg-%u', 'cfg-match'):
         jobs += [([list(r) for r in h], 1 if tier == 'quick' else 2, mode) for h in chs]
+    # application servers that install keys in begin_auth() only for users who have some: a switch to a user
+    # without keys (root) must not inherit the previous user's
+    ra = [('none', 'alice'), ('pk', 'alice', 'ka2', 'good'), ('probe', 'alice', 'ka'), ('pk', 'alice', 'kb', 'good'), ('none', 'root'),
+          ('pk', 'root', 'ka2', 'good'), ('pk', 'root', 'ka', 'good'), ('probe', 'root', 'ka2'), ('cert', 'root', 'good'), ('none', 'bob'),
+          ('pk', 'bob', 'kb', 'good'), ('pk', 'root', 'kb', 'good')]
+    rhs = [[r] for r in ra] + [[r1, r2] for r1 in ra for r2 in ra] + [[r1, r2, r3] for r1 in ra[:4] for r2 in ra[4:9] for r3 in ra[4:9]]
+    jobs += [([list(r) for r in h], 1 if tier == 'quick' else 2, 'sparse') for h in rhs]
     # determinism: the same schedule twice
     probe = [['pw', 'alice', 'right'], ['pw', 'bob', 'wrong']]
     ch0 = core.Chooser([])
